@@ -311,3 +311,6 @@ func ZzParseString(s string) (*ChordList, error) {
 	_ = Parse(lex)
 	return lex.Result, lex.Err()
 }
+
+// ZzNewModelReader is the constructor the engine substitutes for ybase.NewReader.
+func ZzNewModelReader(src []rune) ybase.Reader { return &verifReader{src: src} }
